@@ -190,6 +190,8 @@ func (r *FeatureLocal) addPendingApproval(msg *api.Message) {
 	ski := msg.DeviceRemote.Ski()
 
 	newTimer := time.AfterFunc(r.writeTimeout, func() {
+		verifApprovalTimer(0, ski, *msg.RequestHeader.MsgCounter)
+		defer verifApprovalTimer(1, ski, *msg.RequestHeader.MsgCounter)
 		r.muxResponseCB.Lock()
 		delete(r.pendingWriteApprovals[ski], *msg.RequestHeader.MsgCounter)
 		r.muxResponseCB.Unlock()
@@ -223,6 +225,7 @@ func (r *FeatureLocal) ApproveOrDenyWrite(msg *api.Message, err model.ErrorType)
 	if !ok || timer == nil {
 		return
 	}
+	verifYield("ApproveOrDenyWrite.lookedup")
 
 	// do we have enough approvals?
 	r.muxWriteReceived.Lock()
